@@ -96,6 +96,11 @@ def acceptMulti (prior : Bool → Tape α → α) (evs : List (Bool × Widths α
 def jumpQ (w : Widths α) (x : Tape α) : α :=
   gaussPdf x.gamma (c 0) w.gammaDc * gaussPdf x.delta (c 0) w.deltaDc / w.propNorm
 
+/-- `proposal_normalisation` as the trans-dimensional sampler's `__init__` computes it (since fix d6bce07): the mass of the two
+    normal distributions about zero on the ranges the balancing draw is truncated to -/
+def propNormOf (sg sd : α) : α :=
+  (c 1 - c 2 * gaussCdf (-(Flt.pi / c 2)) (c 0) sd) * (c 1 - c 2 * gaussCdf (-(Flt.pi / c 6)) (c 0) sg)
+
 /-- acceptance of a jump from the double-couple state to the full-tensor state `x`
     (`prior true _` is the double-couple prior, constant 1 in the code) -/
 def acceptJumpUp (prior : Bool → Tape α → α) (w : Widths α) (xiDc x : Tape α) (pDc : α) (Lxi Lx : LogP α) : α :=
